@@ -75,6 +75,9 @@ def seed_table() -> str:
             verdict += " (superseded at HEAD: the code it edits was rewritten by a later repair)"
         elif res.get("patch_applies_to_head") is False:
             verdict += " (verdict from the tree it was written for; the patch no longer applies to HEAD)"
+        note_p = os.path.join(d, "note.txt")
+        if os.path.exists(note_p):
+            verdict += " - " + esc(open(note_p).read().strip())
         rows.append(f"| {name} | {meta.get('property')} | {esc(summ)} — *needs:* {esc(needs)} | "
                     f"{'yes' if res.get('confirmed') else 'no' if res.get('confirmed') is False else '?'} | {verdict} |")
     return "\n".join(rows)
